@@ -402,7 +402,9 @@ def gen_spec(rng, thorough=False):
         used_names.add(nm)
         e = {'name': nm, 'attrs': [], 'composites': [], 'used': set(), 'bases': None}
         if i > 0 and rng.random() < 0.3:
-            e['bases'] = [rng.choice(ents)['name']]
+            base = rng.choice(ents)
+            e['bases'] = [base['name']]
+            if rng.random() < 0.9: e['used'] = base['used']      # one name pool per hierarchy (else: 'hides base attribute' rejections)
             if rng.random() < 0.15 and len(ents) > 1: e['bases'].append(rng.choice([x for x in ents if x['name'] != e['bases'][0]])['name'])
             if rng.random() < 0.1: e['table'] = custom('table') or 'sub_t'
         else:
@@ -422,7 +424,8 @@ def gen_spec(rng, thorough=False):
                 if a['type'] == 'int' and rng.random() < 0.5: a['auto'] = True
             if rng.random() < 0.25: a['unique'] = True
             if rng.random() < 0.2: a['nullable'] = rng.choice([True, False])
-            if rng.random() < 0.25: a['index'] = rng.choice([True, False, custom('index') or 'ix_' + a['name']])
+            if rng.random() < 0.25: a['index'] = rng.choice([True, True, False, custom('index') or 'ix_' + a['name'], 'ix_' + a['name']])
+            if a.get('index') is False and a.get('unique') and rng.random() < 0.8: a.pop('unique')
             c = custom('column')
             if c is not None: a['column'] = c
             if a['kind'] == 'PrimaryKey': a.pop('unique', None)
